@@ -56,7 +56,9 @@ SourceClasses == {"none", "subdir", "package+subdir", "href", "package-only", "e
 SourceOk(c) == c \in {"none", "subdir", "package+subdir", "href"}
 \* for script / stylesheet / meta: none | one valid item | list of valid items | empty list
 \* | item missing a required key | non-dict item | list with one invalid item among valid ones
-ItemClasses == {"none", "one", "list", "empty-list", "missing-key", "empty-item", "non-dict", "list-with-missing", "list-with-non-dict"}
+\* | a Mapping that is not a dict (the statement: "a non-dict ... item ... is rejected")
+ItemClasses == {"none", "one", "list", "empty-list", "missing-key", "empty-item", "non-dict", "list-with-missing", "list-with-non-dict",
+                "mapping-item"}
 ItemsOk(c) == c \in {"none", "one", "list", "empty-list"}
 MetaClasses == ItemClasses \cup {"missing-content"}
 DefOk(d) == SourceOk(d.source) /\ ItemsOk(d.script) /\ ItemsOk(d.stylesheet) /\ ItemsOk(d.meta)
